@@ -422,15 +422,20 @@ def parse_obj(text, p):
                    "Cached(Ok _) = GComputed (Ok(None) = field not found is a stored answer too), Cached(Err _) = GErrored")
     s = squeeze(strip_comments(find_body(text, r"\bfn get_idx\s*\(\s*&self\s*,\s*key\s*:\s*IStr\s*,\s*core\s*:\s*CoreIdx\s*\)"
                                                r"\s*->\s*Result\s*<\s*Option\s*<\s*Val\s*>\s*>\s*\{", w("fn get_idx"))))
-    m = re.match(r"self\.run_assertions\(\)\?;", s)
-    if m:
-        p.gate = True
-        s = s[m.end():]
-    m = re.match(rf"let ({ID})=\(key\.clone\(\),core\);", s)
-    if not m:
+    # the gate and the key binding are independent of each other: either order
+    ck = None
+    for _ in range(2):
+        m = re.match(r"self\.run_assertions\(\)\?;", s)
+        if m and not p.gate:
+            p.gate = True
+            s = s[m.end():]
+            continue
+        m = re.match(rf"let ({ID})=\(key\.clone\(\),core\);", s)
+        if m and ck is None:
+            ck = m.group(1)
+            s = s[m.end():]
+    if ck is None:
         raise TranslateError(w(f"`let cache_key = (key.clone(), core);` expected at `{s[:70]}`"))
-    ck = m.group(1)
-    s = s[m.end():]
     if not s.startswith("{"):
         raise TranslateError(w(f"cache lookup block expected at `{s[:70]}`"))
     blk, end = block_after(s, 0, w("lookup block"))
